@@ -5,6 +5,7 @@ import (
 	"context"
 	"errors"
 	"fmt"
+	"io"
 	"time"
 
 	"github.com/tychoish/fun"
@@ -55,7 +56,7 @@ func member(i int, outcome string, blocks bool, o *svcObs) *srv.Service {
 }
 
 // orchestrator: services in a given state at Add time, added before/after Start.
-func orchestrator(states []string, outcomes []string, addAfterStart []bool) vs.Scenario {
+func orchestrator(states []string, outcomes []string, addAfterStart []bool, promptCancel bool) vs.Scenario {
 	return func() (func(), func(*vs.End) (string, string)) {
 		obs := make([]*svcObs, len(states))
 		var waitErr error
@@ -90,7 +91,11 @@ func orchestrator(states []string, outcomes []string, addAfterStart []bool) vs.S
 				}
 			}
 			fin := make(chan struct{}, 1)
-			vs.Quiesce()
+			if !promptCancel {
+				vs.Quiesce()
+			}
+			// promptCancel: the context ends while the orchestrator may still have a
+			// backlog of added-but-not-yet-started services (all Adds returned before)
 			ocancel()
 			// externally running services end at an arbitrary time after the
 			// orchestrator's context was cancelled
@@ -100,7 +105,7 @@ func orchestrator(states []string, outcomes []string, addAfterStart []bool) vs.S
 			<-fin
 		}
 		check := func(e *vs.End) (string, string) {
-			where := fmt.Sprintf("states=%v outcomes=%v addAfterStart=%v", states, outcomes, addAfterStart)
+			where := fmt.Sprintf("states=%v outcomes=%v addAfterStart=%v promptCancel=%v", states, outcomes, addAfterStart, promptCancel)
 			if t, d := endTag(e); t != "" {
 				return t, where + ": " + d
 			}
@@ -182,12 +187,18 @@ type job struct {
 
 func mkJob(i int, outcome string, j *job) fun.Worker {
 	j.err = fmt.Errorf("job-%d-failed", i)
+	switch outcome {
+	case "eof": // a failure that wraps io.EOF (e.g. pubsub.ErrQueueClosed does)
+		j.err = fmt.Errorf("job-%d-failed: %w", i, io.EOF)
+	case "ctx": // a failure that wraps a context error
+		j.err = fmt.Errorf("job-%d-failed: %w", i, context.Canceled)
+	}
 	return func(context.Context) error {
 		j.runs++
 		j.ranAt = vs.Now()
 		vs.Yield()
 		switch outcome {
-		case "error":
+		case "error", "eof", "ctx":
 			return j.err
 		case "panic":
 			panic(j.err)
@@ -293,7 +304,7 @@ func pool(handler bool, workers int, outcomes []string, producers int, raceAdd b
 
 // cleanup: every cleanup function accepted before shutdown runs exactly once
 // during shutdown, whatever its siblings do; errors surface through Wait.
-func cleanup(outcomes []string, early []bool) vs.Scenario {
+func cleanup(outcomes []string, early []bool, ncpu int) vs.Scenario {
 	return func() (func(), func(*vs.End) (string, string)) {
 		jobs := make([]*job, len(outcomes))
 		var waitErr error
@@ -301,6 +312,8 @@ func cleanup(outcomes []string, early []bool) vs.Scenario {
 		body := func() {
 			ctx, cancel := context.WithCancel(context.Background())
 			defer cancel()
+			vs.NumCPUValue = ncpu // Cleanup runs one worker per CPU
+			defer func() { vs.NumCPUValue = 2 }()
 			q := pubsub.NewUnlimitedQueue[fun.Worker]()
 			s := srv.Cleanup(q, 0)
 			_ = s.Start(ctx)
@@ -322,7 +335,7 @@ func cleanup(outcomes []string, early []bool) vs.Scenario {
 			waitErr = s.Wait()
 		}
 		check := func(e *vs.End) (string, string) {
-			where := fmt.Sprintf("cleanup outcomes=%v early=%v", outcomes, early)
+			where := fmt.Sprintf("cleanup outcomes=%v early=%v ncpu=%d", outcomes, early, ncpu)
 			if t, d := endTag(e); t != "" {
 				return t, where + ": " + d
 			}
@@ -393,7 +406,8 @@ func build(tier string) ([]runner.Instance, time.Duration) {
 	for _, st := range states {
 		for _, oc := range outs {
 			for _, after := range []bool{false, true} {
-				add("orchestrator", fmt.Sprintf("orchestrator/1/%s,%s,after=%v", st, oc, after), bound+1, orchestrator([]string{st}, []string{oc}, []bool{after}))
+				add("orchestrator", fmt.Sprintf("orchestrator/1/%s,%s,after=%v", st, oc, after), bound+1, orchestrator([]string{st}, []string{oc}, []bool{after}, false))
+				add("orchestrator", fmt.Sprintf("orchestrator/1/%s,%s,after=%v,prompt-cancel", st, oc, after), bound+1, orchestrator([]string{st}, []string{oc}, []bool{after}, true))
 			}
 		}
 	}
@@ -402,11 +416,13 @@ func build(tier string) ([]runner.Instance, time.Duration) {
 			ocs := []string{"error", "ok"}
 			if tier == "thorough" {
 				for _, oc := range combos(outs, 2) {
-					add("orchestrator", fmt.Sprintf("orchestrator/2/%v,%v,after=%v", st, oc, after), bound, orchestrator(st, oc, after))
+					add("orchestrator", fmt.Sprintf("orchestrator/2/%v,%v,after=%v", st, oc, after), bound, orchestrator(st, oc, after, false))
+					add("orchestrator", fmt.Sprintf("orchestrator/2/%v,%v,after=%v,prompt-cancel", st, oc, after), bound, orchestrator(st, oc, after, true))
 				}
 				continue
 			}
-			add("orchestrator", fmt.Sprintf("orchestrator/2/%v,%v,after=%v", st, ocs, after), bound, orchestrator(st, ocs, after))
+			add("orchestrator", fmt.Sprintf("orchestrator/2/%v,%v,after=%v", st, ocs, after), bound, orchestrator(st, ocs, after, false))
+			add("orchestrator", fmt.Sprintf("orchestrator/2/%v,%v,after=%v,prompt-cancel", st, ocs, after), bound, orchestrator(st, ocs, after, true))
 		}
 	}
 	for n := 1; n <= 2; n++ {
@@ -436,7 +452,18 @@ func build(tier string) ([]runner.Instance, time.Duration) {
 	for n := 0; n <= maxC; n++ {
 		for _, oc := range combos(outs, n) {
 			for _, early := range bools(n) {
-				add("cleanup", fmt.Sprintf("cleanup/%v,early=%v", oc, early), bound, cleanup(oc, early))
+				add("cleanup", fmt.Sprintf("cleanup/%v,early=%v", oc, early), bound, cleanup(oc, early, 2))
+			}
+		}
+	}
+	// one worker, more jobs than workers, failures of every kind (incl. errors that wrap io.EOF or
+	// a context error, which a worker group treats as "stop"): no job may prevent the others
+	for n := 2; n <= maxC; n++ {
+		for _, oc := range combos([]string{"ok", "error", "panic", "eof", "ctx"}, n) {
+			early := make([]bool, n)
+			add("cleanup", fmt.Sprintf("cleanup/1cpu/%v,late", oc), bound, cleanup(oc, early, 1))
+			if n == 2 {
+				add("cleanup", fmt.Sprintf("cleanup/1cpu/%v,early", oc), bound, cleanup(oc, []bool{true, true}, 1))
 			}
 		}
 	}
